@@ -192,7 +192,9 @@ pub fn gen_history(rng: &mut Rng) -> (Vec<Op>, &'static str) {
 }
 
 fn gen_history0(rng: &mut Rng) -> (Vec<Op>, &'static str) {
-    let stream = match rng.below(25) {
+    let stream = match rng.below(27) {
+        26 => "wred",
+        25 => "symbinder",
         24 => "sumxor",
         23 => "symred4",
         22 => "fcapture",
@@ -233,10 +235,12 @@ fn gen_history0(rng: &mut Rng) -> (Vec<Op>, &'static str) {
     if stream == "inherit" || stream == "symred" || stream == "deepsym" || stream == "upmerge" {
         return (gen_structured(rng, stream), stream);
     }
-    if stream == "tripledep" || stream == "collapse" || stream == "shadow" || stream == "migrate" || stream == "fcapture" || stream == "symred4" || stream == "sumxor" {
+    if stream == "tripledep" || stream == "collapse" || stream == "shadow" || stream == "migrate" || stream == "fcapture" || stream == "symred4" || stream == "sumxor" || stream == "symbinder" || stream == "wred" {
         let raw = match stream {
             "tripledep" => gen_tripledep(rng),
             "sumxor" => gen_sumxor(rng),
+            "symbinder" => gen_symbinder(rng),
+            "wred" => gen_wred(rng),
             "symred4" => gen_symred4(rng),
             "fcapture" => gen_fcapture(rng),
             "migrate" => gen_migrate(rng),
@@ -494,6 +498,54 @@ pub fn gen_collapse(rng: &mut Rng) -> Vec<Op> {
         ops.push(Op::Union(2, 3));
         ops.push(Op::Union(0, 1));
     }
+    ops
+}
+
+/// a node with a slot of its own *and* a child (`w(c, f(a, c))`), where the slot is handed to the child only at a position
+/// that becomes redundant (`f(a, b) = g(a)`): `w(c, f(a, c)) = w(c, g(a))`, and the slot of `w` itself still matters
+pub fn gen_wred(rng: &mut Rng) -> Vec<Op> {
+    let (a, b, c) = (4u32, 8u32, 2u32);
+    let w = |s: u32, t: ATerm| ATerm { v: 19, fields: vec![CField::Slot(s), CField::App], children: vec![t] };
+    let (fv, gv) = if rng.chance(1, 2) { (7usize, 10usize) } else { (11, 10) };
+    let mut terms = vec![w(c, leaf(fv, &[a, c])), leaf(fv, &[a, b]), leaf(gv, &[a]), w(c, leaf(gv, &[a]))];
+    if rng.chance(1, 2) {
+        terms.push(w(b, leaf(fv, &[a, b])));
+    }
+    if rng.chance(1, 2) {
+        terms.push(w(a, leaf(gv, &[a])));
+    }
+    if rng.chance(1, 3) {
+        terms.swap(0, 3);
+    }
+    let f_idx = terms.iter().position(|t| *t == leaf(fv, &[a, b])).unwrap();
+    let g_idx = terms.iter().position(|t| *t == leaf(gv, &[a])).unwrap();
+    let mut ops: Vec<Op> = terms.into_iter().map(Op::Add).collect();
+    ops.push(if rng.chance(1, 2) { Op::Union(f_idx, g_idx) } else { Op::Union(g_idx, f_idx) });
+    ops
+}
+
+/// a binder over a child class whose symmetry exchanges the bound slot with a free one: `c = x op y`, `c = y op x`, and
+/// `λx. c`, `λy. c` (also `sum`, `let`); the two spellings of the parent are one node, whichever variant is stored
+pub fn gen_symbinder(rng: &mut Rng) -> Vec<Op> {
+    let var = |s: u32| leaf(2, &[s]);
+    let (x, y) = (BINDERS[0], 4u32);
+    let c = |a: u32, b: u32, k: usize| match k {
+        0 => bin(4, var(a), var(b)),
+        1 => bin(5, var(a), var(b)),
+        2 => leaf(7, &[a, b]),
+        _ => bin(14, leaf(10, &[a]), leaf(10, &[b])),
+    };
+    let k = rng.below(4);
+    let bind = |v: usize, s: u32, b: ATerm| ATerm { v, fields: vec![CField::Bind(s, Box::new(CField::App))], children: vec![b] };
+    let bv = if rng.chance(1, 2) { 0 } else { 6 };
+    let mut ops = vec![Op::Add(c(x, y, k)), Op::Add(c(y, x, k)), Op::Add(bind(bv, x, c(x, y, k)))];
+    if rng.chance(1, 2) {
+        ops.push(Op::Add(bind(bv, x, c(y, x, k))));
+    }
+    if rng.chance(1, 2) {
+        ops.push(Op::Add(un(13, bind(bv, x, c(x, y, k)))));
+    }
+    ops.push(Op::Union(0, 1));
     ops
 }
 
